@@ -145,7 +145,7 @@ Ltac thr_tac :=
   first
     [ apply threads_ok_update;
       [ first [assumption | eapply threads_ok_shared; [eassumption|lia]]
-      | unfold thr_ok; cbn; auto ]
+      | unfold thr_ok; cbn; first [tauto | auto] ]
     | apply threads_ok_remove;
       [ assumption | first [assumption | eapply threads_ok_shared; [eassumption|lia]] ] ].
 
@@ -310,8 +310,8 @@ Proof.
   - (* SDefer *) reader Hl c. plain Hl.
   - (* SMake *) reader Hl c.
     assert (Hn : (q_count c <? 0) = false) by (unfold abs_len in Nlen; lia). rewrite Hn in Hs. plain Hl.
-  - (* SCnt *) reader Hl c. plain Hl. tauto.
-  - (* SCap *) reader Hl c. plain Hl. tauto.
+  - (* SCnt *) reader Hl c. plain Hl.
+  - (* SCap *) reader Hl c. plain Hl.
   - (* SFor *) reader Hl c. destruct Hth as [H1 [H2 [H3 H4]]]. subst.
     destruct (0 <? q_count c) eqn:E; plain Hl.
     + repeat split; auto; try lia.
@@ -372,7 +372,7 @@ Ltac wake_fields Hl Hl2 Hw Hne :=
   try (rewrite !tids_update; assumption);
   try (eapply waiters2_irrel; [exact Hl|exact Hw|exact Hne|cbn; discriminate|cbn; discriminate|cbn; discriminate|cbn; discriminate|assumption]);
   try (eapply waiters2_pop; [assumption|exact Hl|exact Hw|exact Hne|cbn; discriminate|cbn; discriminate|cbn; discriminate|assumption]);
-  try (apply threads2_ok; [first [assumption | eapply threads_ok_shared; [eassumption|lia]]|unfold thr_ok; cbn; auto|unfold thr_ok; cbn; auto]).
+  try (apply threads2_ok; [first [assumption | eapply threads_ok_shared; [eassumption|lia]]|unfold thr_ok; cbn; first [tauto|auto]|unfold thr_ok; cbn; first [tauto|auto]]).
 
 Ltac nodup_tail :=
   match goal with H : NoDup (_ :: ?r) |- NoDup ?r => inversion H; assumption end.
@@ -542,4 +542,89 @@ Proof.
     all: try (apply waiters_ok_spawn_irrel; [assumption|cbn; discriminate|assumption]).
     all: try (apply threads_ok_spawn; [assumption|unfold thr_ok; cbn; auto]).
   - unfold abq_abs, abs_len, abs_head; proj_simpl; repeat rewrite count_spawn; destruct op; cbn; repeat split; try same_abs.
+Qed.
+Lemma abq_cancel_inv cap c t c' o :
+  1 <= cap -> abq_inv cap c -> abq_exec1 c (ACancel t) = Some (c', o) ->
+  abq_inv cap c' /\ same_abs_log c c'.
+Proof.
+  intros Hcap I Hs. inv_facts I c. cbn [abq_exec1] in Hs.
+  destruct (lookup t (q_thr c)) as [th|] eqn:Hl; [|discriminate].
+  pose proof (Ithr t th Hl) as Hth.
+  destruct th as [pc v err can res cnt capv idx lin].
+  cbn [t_pc t_can] in Hs. destruct can; [discriminate|].
+  unfold same_abs_log. unfold thr_ok in Hth; cbn [t_pc t_lin t_err t_can t_res t_cnt t_capv t_idx] in Hth.
+  destruct pc.
+  2: {
+    unfold cancel_parked in Hs.
+    rewrite (sem_cancel_ok _ _ t Ienq) in Hs. rewrite wake_nil in Hs. cbn [obs_at map] in Hs.
+    injection Hs as <- <-.
+    assert (Hin : In t (s_wait (q_enq c))) by (eapply waiters_ok_in; [exact Hl|reflexivity|exact Iew]).
+    split.
+    + constructor; simp_goal Hl; try field Hl; try thr_tac.
+      * constructor; cbn [s_size s_cur s_wait]; first [lia | (apply nodup_remove_tid; assumption) | idtac].
+        intros _. match goal with H : s_wait _ <> [] -> _ |- _ => apply H end. intros E. rewrite E in Hin. contradiction.
+      * eapply waiters_ok_remove_tid; [assumption|exact Hl|cbn; discriminate|assumption].
+    + simp_goal Hl; repeat split; try same_abs.
+  }
+  17: {
+    unfold cancel_parked in Hs.
+    rewrite (sem_cancel_ok _ _ t Ideq) in Hs. rewrite wake_nil in Hs. cbn [obs_at map] in Hs.
+    injection Hs as <- <-.
+    assert (Hin : In t (s_wait (q_deq c))) by (eapply waiters_ok_in; [exact Hl|reflexivity|exact Idw]).
+    split.
+    + constructor; simp_goal Hl; try field Hl; try thr_tac.
+      * constructor; cbn [s_size s_cur s_wait]; first [lia | (apply nodup_remove_tid; assumption) | idtac].
+        intros _. match goal with H : s_wait _ <> [] -> _ |- _ => apply H end. intros E. rewrite E in Hin. contradiction.
+      * eapply waiters_ok_remove_tid; [assumption|exact Hl|cbn; discriminate|assumption].
+    + simp_goal Hl; repeat split; try same_abs.
+  }
+  all: injection Hs as <- <-.
+  all: split; [constructor; simp_goal Hl; try field Hl; try thr_tac | simp_goal Hl; repeat split; try same_abs].
+  all: try tauto.
+Qed.
+(* what an event does to the abstract queue and to the history *)
+Definition ev_abs (cap : Z) (c : abq_cfg) (e : abq_ev) (c' : abq_cfg) : Prop :=
+  match e with
+  | AStep t =>
+    match lookup t (q_thr c) with
+    | Some th => step_abs cap c t th c'
+    | None => True
+    end
+  | _ => same_abs_log c c'
+  end.
+
+Lemma abq_inv_exec1 cap c e c' o :
+  1 <= cap -> abq_inv cap c -> abq_exec1 c e = Some (c', o) ->
+  abq_inv cap c' /\ ev_abs cap c e c'.
+Proof.
+  intros Hcap I Hs. destruct e as [t op|t|t]; unfold ev_abs.
+  - eapply abq_call_inv; eassumption.
+  - cbn [abq_exec1] in Hs. destruct (lookup t (q_thr c)) as [th|] eqn:Hl; [|discriminate].
+    destruct (t_pc th) eqn:P.
+    all: try (apply (abq_step_enq cap c t th c' o Hcap I Hl); [rewrite P; exact Logic.I|exact Hs]).
+    all: try (apply (abq_step_deq cap c t th c' o Hcap I Hl); [rewrite P; exact Logic.I|exact Hs]).
+    all: try (apply (abq_step_read cap c t th c' o Hcap I Hl); [rewrite P; exact Logic.I|exact Hs]).
+    all: try (apply (abq_step_release cap c t th c' o Hcap I Hl); [rewrite P; exact Logic.I|exact Hs]).
+    all: try (apply (abq_step_acquire cap c t th c' o Hcap I Hl); [rewrite P; exact Logic.I|exact Hs]).
+    all: unfold abq_step in Hs; rewrite P in Hs; discriminate.
+  - eapply abq_cancel_inv; eassumption.
+Qed.
+
+Lemma abq_inv_next cap c e c' :
+  1 <= cap -> abq_inv cap c -> abq_next c e = Some c' -> abq_inv cap c'.
+Proof.
+  intros Hcap I H. unfold abq_next in H.
+  destruct (abq_exec1 c e) as [[c1 o]|] eqn:E; [|discriminate]. injection H as <-.
+  exact (proj1 (abq_inv_exec1 cap c e c1 o Hcap I E)).
+Qed.
+
+(* the invariant holds in every configuration reachable by any event sequence *)
+Theorem abq_inv_reachable_lemma cap :
+  1 <= cap -> forall evs c, exec abq_next (abq_init cap) evs = Some c -> abq_inv cap c.
+Proof.
+  intros Hcap evs c H.
+  apply (invariant_reachable abq_cfg abq_ev abq_next (abq_inv cap)) with (evs := evs) (c := abq_init cap).
+  - intros c0 e c1 I0 Hn. exact (abq_inv_next cap c0 e c1 Hcap I0 Hn).
+  - apply abq_inv_init, Hcap.
+  - exact H.
 Qed.
